@@ -17,8 +17,9 @@ E  labels / edges / functions: enumerated shapes (E) with symbolic sizes; the co
    function tables; whenever one of these cannot be kept the join must have been refused.
    Preconditions (derived from the call site _cleanup_modified_blocks / insert, monitored in the bounded runs, see
    bounded/driver.py: JoinPreconditionMonitor): an empty block has only fallthrough out-edges; a non-empty code block has at
-   least one out-edge (C03's "input CFG consistent with the code"); when block2 is non-empty block1 carries no end-of-block
-   label; an empty block1 is in the same function as block2 (or neither is in one).
+   least one out-edge (C03's "input CFG consistent with the code"); an empty block1 is in the same function as block2 (or
+   neither is in one).  (Until fix 5c22cb9 a third precondition was needed: no end-of-block label on block1 when block2 is
+   non-empty -- a data patch ending in a label violated it, defect F-C02b.)
 """
 import itertools
 
@@ -519,7 +520,9 @@ def make_e_harness(s1, s2):
         o1 = B1_OUT[s1 > 0][ctx.choose(len(B1_OUT[s1 > 0]), "block1-out-edges")]
         o2 = B2_OUT[s2 > 0][ctx.choose(len(B2_OUT[s2 > 0]), "block2-out-edges")]
         extra_in = bool(ctx.choose(2, "block2-has-a-branch-coming-in"))
-        lab_opts = [(), ("b2start",), ("b2end",), ("b2start", "b2end")] + ([("b1end",), ("b1end", "b2start")] if s2 == 0 else [])
+        # (an end-of-block label on block1 with a non-empty block2 used to be a precondition of this contract; the code now refuses
+        # such joins itself -- F-C02b -- so the case is part of the universe)
+        lab_opts = [(), ("b2start",), ("b2end",), ("b2start", "b2end"), ("b1end",), ("b1end", "b2start")]
         labels = lab_opts[ctx.choose(len(lab_opts), "labels")]
         fopts = ["none", "same", "b2-entry"] + (["different"] if s1 > 0 else [])
         if s1 == 0:
